@@ -22,7 +22,7 @@ type aqP struct {
 	Signer    string // "" sp-a | attacker | sp-b
 	KeyInfo   string // "" yes | no
 	SignImpl  string // "" own | goxmldsig
-	Forge     string // "" | sv-flip | attr-edit | subject-edit | sig-stripped | dv-flip | xsw-dup-signed-first | xsw-dup-evil-first | xsw-two-bodies
+	Forge     string // "" | sv-flip | attr-edit | subject-edit | sig-stripped | dv-flip | xsw-dup-signed-first | xsw-dup-evil-first | xsw-two-bodies | xsw-prefix-rebind | xsw-prefix-rebind-decoy-first | xsw-header-decoy
 	Dest      string // "" advertised | absent | sso-location | foreign | prefixed-advertised | prefixed-foreign
 	Subject   string // "" alice | bob | unknown | absent
 	Attrs     string // requested attribute list shape (aqAttrLists)
@@ -322,6 +322,40 @@ func aqBuild(p aqP) (*world.World, *http.Request, *aqTruth) {
 					body.InsertAfter(b2)
 				}
 				t.SubjectName = "" // whichever query is processed, nothing may be disclosed
+			case "xsw-prefix-rebind", "xsw-prefix-rebind-decoy-first", "xsw-header-decoy":
+				// namespace / placement games: the query a namespace-aware reader finds in THE SOAP body is about bob and carries a
+				// signature value that does not verify for it (copied); the validly signed query about alice sits in an element that
+				// only LOOKS like the body (the envelope's prefix re-bound to a foreign namespace) or in the SOAP header
+				evil := aq.Clone()
+				evil.Set("ID", "_evil-aq")
+				evil.Path("Subject", "NameID").SetText("bob")
+				body := aq.Parent
+				env := body.Parent
+				decoy := body.Clone()
+				decoy.Parent = env
+				body.Kids = nil
+				body.Add(evil)
+				if p.Forge == "xsw-header-decoy" {
+					decoy.Local = "Header"
+					env.Kids = append([]*xt.Node{decoy}, env.Kids...)
+				} else {
+					pf := body.Prefix
+					if pf == "" {
+						pf = "soapenv"
+						env.Prefix, body.Prefix = pf, pf
+						env.NS = append(env.NS, xt.NSDecl{Prefix: pf, URI: xt.NSSoap})
+					}
+					decoy.Prefix, decoy.Space = pf, "urn:example:archive"
+					decoy.NS = append(decoy.NS, xt.NSDecl{Prefix: pf, URI: "urn:example:archive"})
+					body.Prefix = "env2"
+					body.NS = append(body.NS, xt.NSDecl{Prefix: "env2", URI: xt.NSSoap})
+					if p.Forge == "xsw-prefix-rebind" {
+						body.InsertAfter(decoy)
+					} else {
+						env.Kids = append([]*xt.Node{decoy}, env.Kids...)
+					}
+				}
+				t.SubjectName = ""
 			default:
 				panic("aqBuild: Forge " + p.Forge)
 			}
